@@ -299,6 +299,10 @@ class ExprCall(Expr):
 
     def iterate(self, *, flat: bool = True) -> Iterator[str | Expr]:
         yield from _yield(_operand(self.function, _ATOM), flat=flat)
+        if len(self.arguments) == 1 and isinstance(self.arguments[0], ExprGeneratorExp):
+            # The parentheses of a generator expression passed as sole argument are the ones of the call.
+            yield from _yield(self.arguments[0], flat=flat)
+            return
         yield "("
         yield from _join(self.arguments, ", ", flat=flat)
         yield ")"
@@ -456,9 +460,11 @@ class ExprGeneratorExp(Expr):
     """Generators iterated on."""
 
     def iterate(self, *, flat: bool = True) -> Iterator[str | Expr]:
+        yield "("
         yield from _yield(self.element, flat=flat)
         yield " "
         yield from _join(self.generators, " ", flat=flat)
+        yield ")"
 
 
 # YORE: EOL 3.9: Replace `**_dataclass_opts` with `slots=True` within line.
